@@ -31,6 +31,10 @@ THEOREMS = [
     "Verif.C05.period_round_trip",
     "Verif.C05.period_round_trip_double",
     "Verif.C05.F7_witness_exact",
+    "Verif.C05.write_read",
+    "Verif.C05.cropped_export_reads_back",
+    "Verif.C05.channel_class_v1",
+    "Verif.C05.channel_class_bytes",
     "Verif.C05.pixels_split",
     "Verif.C05.cropped_kymo_lines",
     "Verif.C05.attr_table_nodup",
@@ -227,6 +231,131 @@ def _attrs_impl(case):
     return out
 
 
+# ------------------------------------------------------------------ datasets: to_dataset / channel_class / from_dataset
+
+
+def make_source(e):
+    """the real source object for a case's channel description (ts/tags values are the sample index, as in the model)"""
+    from lumicks.pylake.channel import Continuous, TimeSeries, TimeTags
+
+    if e["kind"] == "cont":
+        return Continuous(np.asarray(e["data"], dtype=float), e["start"], e["dt"])
+    if e["kind"] == "ts":
+        return TimeSeries(np.arange(len(e["ts"]), dtype=float), np.asarray(e["ts"], dtype=np.int64))
+    return TimeTags(np.asarray(e["ts"], dtype=np.int64))
+
+
+def src_samples(e):
+    if e["kind"] == "cont":
+        return [(e["start"] + i * e["dt"], int(v)) for i, v in enumerate(e["data"])]
+    if e["kind"] == "ts":
+        return [(t, i) for i, t in enumerate(e["ts"])]
+    return [(t, t) for t in e["ts"]]
+
+
+def show_dset(dset):
+    """a written dataset as h5py sees it, in the model's notation"""
+    a = dset.attrs
+    if "Kind" in a:
+        import h5py
+
+        k = a["Kind"]
+        info = h5py.check_string_dtype(a.get_id("Kind").dtype)
+        if isinstance(k, bytes):
+            kind = "bytes:" + bytes(k).decode()
+        else:
+            # a Python bytes value is stored as an ASCII string (and handed back decoded), a str as UTF-8
+            kind = ("bytes:" if info is not None and info.encoding == "ascii" else "str:") + str(k)
+    else:
+        kind = "absent"
+    st = str(int(a["Start time (ns)"])) if "Start time (ns)" in a else "N"
+    sp = str(int(a["Stop time (ns)"])) if "Stop time (ns)" in a else "N"
+    rate = enc_rat(float(a["Sample rate (Hz)"])) if "Sample rate (Hz)" in a else "N"
+    if dset.dtype.fields is None:
+        vals = dset[()]
+        pl = "plain " + enc_list([int(v) if np.issubdtype(vals.dtype, np.integer) else int(round(float(v))) for v in vals])
+    else:
+        pl = "compound [" + ",".join(f"{int(t)}:{int(round(float(v)))}" for t, v in zip(dset["Timestamp"], dset["Value"])) + "]"
+    return f"kind={kind} start={st} stop={sp} rate={rate} {pl}"
+
+
+def show_read(s):
+    """a channel read from a dataset, in the notation of the model's showSrc"""
+    from lumicks.pylake.channel import Continuous, TimeSeries, TimeTags
+
+    src = s._src
+    if isinstance(src, TimeTags):
+        return f"tags {int(s.start)} {int(s.stop)} {enc_list([int(t) for t in s.timestamps])}"
+    body = "[" + ",".join(f"{int(t)}:{int(round(float(v)))}" for t, v in zip(s.timestamps, s.data)) + "]"
+    if isinstance(src, Continuous):
+        if len(s.timestamps) != len(s.data):
+            return f"length-mismatch {len(s.timestamps)} {len(s.data)}"
+        return f"cont {int(s.start)} {public_dt(s)} {body}"
+    if isinstance(src, TimeSeries):
+        return "ts " + body
+    return "unknown-source " + type(src).__name__
+
+
+def mem_h5():
+    import h5py
+
+    return h5py.File("c05-mem", "w", driver="core", backing_store=False)
+
+
+def _dset_impl(case):
+    from lumicks.pylake.channel import channel_class
+
+    out = []
+    with mem_h5() as f:
+        try:
+            d = make_source(case["src"]).to_dataset(f, "x")
+            out.append(show_dset(d))
+        except Exception as ex:
+            return [errname(ex)] * 2
+        try:
+            out.append(show_read(channel_class(d).from_dataset(d)))
+        except Exception as ex:
+            out.append(errname(ex))
+    return out
+
+
+def _class_impl(case):
+    from lumicks.pylake.channel import channel_class
+
+    with mem_h5() as f:
+        if case["shape"] == "plain":
+            d = f.create_dataset("x", data=np.arange(2.0))
+        else:
+            d = f.create_dataset("x", data=np.array([(1, 1.0), (2, 2.0)], np.dtype([("Timestamp", np.int64), ("Value", float)])))
+        k = case["kind"]
+        if k.startswith("str:"):
+            d.attrs["Kind"] = k[4:]
+        elif k.startswith("bytes:"):
+            d.attrs["Kind"] = np.bytes_(k[6:].encode())  # fixed-length: read back as bytes (the decode branch)
+        if case["rate"]:
+            d.attrs["Sample rate (Hz)"] = 1.0
+        d.attrs["Start time (ns)"] = 0
+        d.attrs["Stop time (ns)"] = 0
+        try:
+            return [channel_class(d).__name__]
+        except Exception as ex:
+            return [errname(ex)]
+
+
+def _cropread_impl(case):
+    """what write_h5 does for one numerical channel (slice through Slice.__getitem__, drop when empty, else the
+    sliced source's to_dataset) and what File(new)[name] does with the written dataset"""
+    from lumicks.pylake.channel import Slice, channel_class
+
+    a, b = case["crop"]
+    sliced = Slice(make_source(case["src"]))[a:b]
+    if not sliced:
+        return ["absent"]
+    with mem_h5() as f:
+        d = sliced._src.to_dataset(f, "x", compression="gzip", compression_opts=case.get("compression", 5))
+        return [show_read(channel_class(d).from_dataset(d))]
+
+
 # ------------------------------------------------------------------ file case: plan of ops
 
 
@@ -264,6 +393,9 @@ def file_plan(case):
         a, b = case["crop"]
         for path in sorted(exp):
             plan.append((f"c05.crop {src_tokens(exp[path])} {a} {b}", "crop", path))
+        for path in sorted(exp):
+            # the same observation against the model's slice -> to_dataset -> channel_class -> from_dataset chain
+            plan.append((f"c05.cropread {src_tokens(exp[path])} {a} {b}", "cropread", path))
     return plan
 
 
@@ -290,6 +422,12 @@ def ops(case):
         return [f"c05.dtq {enc_rat(dec_float(case['rate']))}"]
     if k == "omit":
         return [f"c05.omit {enc_listlist([[ord(c) for c in p] for p in case['pats']])} {enc_listlist([[ord(c) for c in p] for p in case['paths']])}"]
+    if k == "dset":
+        return [f"c05.todset {src_tokens(case['src'])}", f"c05.readback {src_tokens(case['src'])}"]
+    if k == "class":
+        return [f"c05.class {case['kind']} {case['shape']} {enc_bool(case['rate'])}"]
+    if k == "cropread":
+        return [f"c05.cropread {src_tokens(case['src'])} {case['crop'][0]} {case['crop'][1]}"]
     if k == "attrs":
         pres = enc_listlist([[ord(c) for c in p] for p in case["present"]])
         return [f"c05.attr {pres} {a}" for a in attr_names()]
@@ -360,6 +498,12 @@ def impl(case):
             return [str(public_dt(s))]
         if k == "omit":
             return [_omit_impl(case)]
+        if k == "dset":
+            return _dset_impl(case)
+        if k == "class":
+            return _class_impl(case)
+        if k == "cropread":
+            return _cropread_impl(case)
         if k == "file":
             return _file_impl(case)
         if k == "attrs":
@@ -458,7 +602,7 @@ def _file_impl(case):
                                     flags.append(p in g and dict_equal(dict(node_src.attrs), dict(g[p].attrs)))
                             answers.append(enc_list(flags, enc_bool))
                             obs["omit_compare"] = compare_uncropped(f.h5, g, case["all_paths"], flags)
-                    elif kind == "crop":
+                    elif kind in ("crop", "cropread"):
                         if new is None:
                             new = lk.File(out)
                         g, n = payload.split("/")
@@ -596,6 +740,50 @@ def oracle(case, ia):
         return None if ia[0] == exp else f"omit: datasets present {ia[0]}, expected {exp} for patterns {case['pats']}"
     if k == "file":
         return _file_oracle(case, ia)
+    if k == "dset":
+        # re-export without loss: what is read from the written dataset is the channel that was written
+        e = case["src"]
+        smp = src_samples(e)
+        if e["kind"] == "ts" and not smp:
+            return None  # an empty time series has no time range; it is never written (dropped by the crop rule)
+        body = "[" + ",".join(f"{t}:{v}" for t, v in smp) + "]"
+        if e["kind"] == "cont":
+            want = f"cont {e['start']} {e['dt']} {body}"
+        elif e["kind"] == "ts":
+            want = "ts " + body
+        else:
+            want = None if ia[1].startswith("tags ") and ia[1].split(" ")[3] == enc_list(e["ts"]) else "tags ... " + enc_list(e["ts"])
+        if want is not None and ia[1] != want:
+            return f"write/read: a channel written with to_dataset reads back as {ia[1][:200]}, it was {want[:200]}"
+        return None
+    if k == "class":
+        kd = case["kind"].split(":", 1)[-1]
+        if kd in ("Continuous", "TimeSeries", "TimeTags") and ia[0] != kd:
+            return f"channel kind: a dataset marked {case['kind']} is read as {ia[0]}"
+        if case["kind"] == "absent" and case["shape"] == "compound" and ia[0] != "TimeSeries":
+            return f"channel kind: a v1 compound dataset is read as {ia[0]}"
+        if case["kind"] == "absent" and case["shape"] == "plain" and case["rate"] and ia[0] != "Continuous":
+            return f"channel kind: a v1 dataset with a sample rate is read as {ia[0]}"
+        return None
+    if k == "cropread":
+        a, b = case["crop"]
+        e = case["src"]
+        kept = [(t, v) for t, v in src_samples(e) if a <= t < b]
+        if not kept:
+            return None if ia[0] == "absent" else f"crop [{a},{b}): no sample in the window but the channel is written: {ia[0][:200]}"
+        body = "[" + ",".join(f"{t}:{v}" for t, v in kept) + "]"
+        if e["kind"] == "cont":
+            want = f"cont {kept[0][0]} {e['dt']} {body}"
+            got = ia[0]
+        elif e["kind"] == "ts":
+            want, got = "ts " + body, ia[0]
+        else:
+            want = "tags " + enc_list([t for t, _ in kept])
+            toks = ia[0].split(" ")
+            got = "tags " + toks[-1] if toks[0] == "tags" else ia[0]
+        if got != want:
+            return f"crop [{a},{b}): the exported channel reads back as {ia[0][:200]}, the original sliced to the window is {want[:200]}"
+        return None
     if k == "attrs":
         # from the documented naming scheme: the attribute's own dataset, or nothing — never another channel
         pres = set(case["present"])
@@ -705,7 +893,7 @@ def _file_oracle(case, ia):
 def agree(case, i, ia, ma):
     if case["op"] == "file":
         plan = file_plan(case)
-        if i < len(plan) and plan[i][1] == "crop":
+        if i < len(plan) and plan[i][1] in ("crop", "cropread"):
             # the model prints its full source; compare the samples (and, for non-empty continuous results, the start)
             if ma == "absent" or ia == "absent":
                 return ia == ma
@@ -724,6 +912,10 @@ def nontrivial(case, ia):
         return True
     if k == "attrs":
         return len(case["present"]) > 0
+    if k in ("dset", "class"):
+        return True
+    if k == "cropread":
+        return len(src_samples(case["src"])) > 0
     if k == "file":
         if case["mode"] == "crop":
             return any(a == "absent" for a in ia) or any(a.startswith(("cont", "ts", "tags")) for a in ia)
@@ -922,6 +1114,56 @@ def cases(tier, rng):
         ps = sorted(set(ps))
         pats_ = [gen_pattern(sub, ps) for _ in range(sub.randint(1, 3))]
         yield {"stream": "random", "op": "omit", "pats": pats_, "paths": ps, "subseed": i}
+
+    # ---- datasets: channel_class on every (Kind spelling, dataset shape, sample-rate attribute) combination
+    for kd in ["absent"] + [f"{sp}:{t}" for sp in ("str", "bytes") for t in ("Continuous", "TimeSeries", "TimeTags", "Scan", "continuous", "Kymograph")]:
+        for shape in ("plain", "compound"):
+            for rate in (False, True):
+                yield {"stream": "small-scope", "op": "class", "kind": kd, "shape": shape, "rate": rate}
+    # ---- to_dataset -> channel_class -> from_dataset, and the cropped variant, on every small channel / window
+    small_srcs = []
+    for start in (100,):
+        for dt in (1, 3, 55):
+            for n in range(0, 4):
+                small_srcs.append({"kind": "cont", "start": start, "dt": dt, "data": [7 + i for i in range(n)]})
+    for ts in ([], [100], [100, 103], [100, 103, 103], [100, 101, 106, 109]):
+        small_srcs.append({"kind": "ts", "ts": ts})
+        small_srcs.append({"kind": "tags", "ts": ts})
+    for e in small_srcs:
+        yield {"stream": "small-scope", "op": "dset", "src": e}
+    wgrid = [94, 97, 100, 101, 103, 104, 106, 109, 110, 155, 156, 300]
+    for e in small_srcs:
+        for a in wgrid:
+            for b in wgrid:
+                if quick and (a > b + 10 or (len(src_samples(e)) == 0 and a != 100)):
+                    continue
+                yield {"stream": "small-scope", "op": "cropread", "src": e, "crop": [a, b]}
+    r = rng.fork("c05-dset")
+    for i in range(300 if quick else 6000):
+        sub = r.fork(i)
+        kind = sub.choice(["cont", "cont", "ts", "tags"])
+        base = sub.choice([0, 1_600_000_000_000_000_000])
+        n = sub.randint(0, 12)
+        if kind == "cont":
+            dt = sub.choice([sub.randint(1, 200), sub.randint(1, 10**9), 2 ** sub.randint(0, 40), 12800])
+            e = {"kind": "cont", "start": base + sub.randint(0, 1000), "dt": dt, "data": [sub.randint(-50, 50) for _ in range(n)]}
+            lo, hi, step = e["start"], e["start"] + n * dt, dt
+        else:
+            step = sub.choice([1, 3, 1000])
+            ts, t = [], base + sub.randint(0, 1000)
+            for _ in range(n):
+                ts.append(t)
+                t += sub.randint(0 if kind == "ts" else 1, 3) * step
+            e = {"kind": kind, "ts": ts}
+            lo, hi = (ts[0], ts[-1] + 1) if ts else (base, base + 1)
+        if sub.chance(0.3):
+            yield {"stream": "random", "op": "dset", "src": e, "subseed": i}
+        else:
+            pts = [lo, hi, lo - 1, lo + 1, hi - 1, hi + 1, lo + step, hi - step, lo - 3 * step, hi + 3 * step, (lo + hi) // 2, (lo + hi) // 2 + 1]
+            a, b = sub.choice(pts), sub.choice(pts)
+            if a > b and sub.chance(0.8):
+                a, b = b, a
+            yield {"stream": "random", "op": "cropread", "src": e, "crop": [int(a), int(b)], "compression": sub.choice([0, 1, 5, 9]), "subseed": i}
 
     # ---- channels by attribute: the whole table on a file with every channel, with none, with each one missing,
     #      and on random subsets
